@@ -14,7 +14,7 @@ func init() {
 		st := &specGenState{cfg: c01Config(true), perAst: 8, maxLen: 10}
 		core.RunLeg(c, core.Leg[specCase]{
 			Name: "S-rtl", Kind: "correspondence(spec)",
-			Rule: "as leg S of C01 but every pattern is compiled with RightToLeft (alone and with i/m/s/n/x/RE2 drawn at random): Go FindRunesMatchStartingAt (start = len or random) vs Lean Spec.find with rtl = true (descending attempt positions, leftward consumption, last-to-first concatenation, lookahead rightwards, spans normalised); non-trivial = AST has >1 node and input non-empty; distinct by (options, pattern, input, start)",
+			Rule: "as leg S of C01 but every pattern is compiled with RightToLeft (alone and with i/m/s/n/x/RE2 drawn at random): Go FindRunesMatchStartingAt (start = len or random) vs Lean Spec.find with rtl = true (descending attempt positions, leftward consumption, last-to-first concatenation, lookahead rightwards, spans normalised); non-trivial = AST has >1 node and input non-empty; distinct by (options, pattern, input, start); first a corpus of literals of 51-62 runes (longer than the 50 the prefix search keeps) in inputs with one or two occurrences and near misses sharing only the head or the tail",
 			Corpus: c15LongLiterals(),
 			N:      c.N(6000, 400000), Gen: st.next, Check: specCheck("C15"), Batch: 4000,
 		})
